@@ -16,14 +16,30 @@ template <typename T> struct SA   // a stateful (non-empty) allocator: no empty-
 template <typename T, typename U> bool operator== (const SA<T>& a, const SA<U>& b) noexcept { return a.tag == b.tag; }
 template <typename T, typename U> bool operator!= (const SA<T>& a, const SA<U>& b) noexcept { return ! (a == b); }
 
+struct alignas (32) W { int id; };                 // an over-aligned element type (extended alignment)
+template <typename T> struct TA   // an allocator with an 8-bit size_type (the README's tiny_allocator): narrow size / capacity fields
+{
+  typedef T value_type; typedef unsigned char size_type; typedef signed char difference_type;
+  TA () noexcept { } template <typename U> TA (const TA<U>&) noexcept { }
+  T *allocate (size_type n) { return static_cast<T *> (::operator new (n * sizeof (T))); }
+  void deallocate (T *p, size_type) noexcept { ::operator delete (p); }
+  size_type max_size () const noexcept { return 100; }
+};
+template <typename T, typename U> bool operator== (const TA<T>&, const TA<U>&) noexcept { return true; }
+template <typename T, typename U> bool operator!= (const TA<T>&, const TA<U>&) noexcept { return false; }
+
 static std::string fmt (int v) { return std::to_string (v); }
+static std::string fmt (bool v) { return v ? "true" : "false"; }
+static std::string fmt (double v) { char b[64]; std::snprintf (b, sizeof b, "%g", v); return b; }
+static std::string fmt (long double v) { char b[64]; std::snprintf (b, sizeof b, "%Lg", v); return b; }
+static std::string fmt (const W& w) { return "{id = " + std::to_string (w.id) + "}"; }
 static std::string fmt (long v) { return std::to_string (v); }
 static std::string fmt (const P& p) { return "{x = " + std::to_string (p.x) + ", y = " + std::to_string (p.y) + "}"; }
 
 template <typename V> static void dump (const char *name, const V& v)
 {
   std::ostringstream o;
-  o << "EXPECT " << name << " small_vector of length " << v.size () << ", capacity " << v.capacity ();
+  o << "EXPECT " << name << " small_vector of length " << static_cast<unsigned long> (v.size ()) << ", capacity " << static_cast<unsigned long> (v.capacity ());
   if (! v.empty ())
   {
     o << " = {";
@@ -53,12 +69,27 @@ int main ()
   gch::small_vector<long, 2, SA<long>> a_heap; for (long i = 0; i < 4; ++i) a_heap.push_back (200 + i);
   gch::small_vector<int, 3> s_moved_from (s_heap); gch::small_vector<int, 3> s_moved_to (std::move (s_moved_from));
   gch::small_vector<int> s_default; for (int i = 0; i < 12; ++i) s_default.push_back (i);
+  gch::small_vector<long double, 3> ld_inline; ld_inline.push_back (1.5L); ld_inline.push_back (2.25L);
+  gch::small_vector<long double, 3> ld_heap; for (int i = 0; i < 5; ++i) ld_heap.push_back (0.5L + i);
+  gch::small_vector<W, 2> w_inline; { W x; x.id = 31; w_inline.push_back (x); }
+  gch::small_vector<W, 2> w_heap; for (int i = 0; i < 4; ++i) { W x; x.id = 40 + i; w_heap.push_back (x); }
+  gch::small_vector<W, 0> w_zero; { W x; x.id = 50; w_zero.push_back (x); }
+  gch::small_vector<double, 4> d_inline; d_inline.push_back (0.5); d_inline.push_back (4.0);
+  gch::small_vector<bool, 5> b_inline; b_inline.push_back (true); b_inline.push_back (false); b_inline.push_back (true);
+  gch::small_vector<int, 4, TA<int>> t_inline; t_inline.push_back (61); t_inline.push_back (62);
+  gch::small_vector<int, 4, TA<int>> t_heap; for (int i = 0; i < 9; ++i) t_heap.push_back (70 + i);
+  gch::small_vector<long double, 3>::iterator it_ld = ld_heap.begin () + 3;
+  gch::small_vector<W, 2>::const_iterator it_w = w_heap.cbegin () + 1;
   gch::small_vector<int, 3>::iterator it_begin = s_heap.begin ();
   gch::small_vector<int, 3>::iterator it_mid = s_heap.begin () + 4;
   gch::small_vector<P, 2>::const_iterator it_p = p_heap.cbegin () + 2;
   dump ("s_empty", s_empty); dump ("s_inline", s_inline); dump ("s_full", s_full); dump ("s_heap", s_heap); dump ("s_heapinl", s_heapinl);
   dump ("s_shrunk", s_shrunk); dump ("z_empty", z_empty); dump ("z_heap", z_heap); dump ("p_inline", p_inline); dump ("p_heap", p_heap);
   dump ("a_inline", a_inline); dump ("a_heap", a_heap); dump ("s_moved_from", s_moved_from); dump ("s_moved_to", s_moved_to); dump ("s_default", s_default);
+  dump ("ld_inline", ld_inline); dump ("ld_heap", ld_heap); dump ("w_inline", w_inline); dump ("w_heap", w_heap); dump ("w_zero", w_zero);
+  dump ("d_inline", d_inline); dump ("b_inline", b_inline); dump ("t_inline", t_inline); dump ("t_heap", t_heap);
+  std::printf ("EXPECT it_ld %s\n", fmt (*it_ld).c_str ());
+  std::printf ("EXPECT it_w %s\n", fmt (*it_w).c_str ());
   std::printf ("EXPECT it_begin %s\n", fmt (*it_begin).c_str ());
   std::printf ("EXPECT it_mid %s\n", fmt (*it_mid).c_str ());
   std::printf ("EXPECT it_p %s\n", fmt (*it_p).c_str ());
